@@ -840,6 +840,7 @@ func main() {
 		scenarioBackoff(rng)
 		scenarioHeartbeatRate(rng)
 		scenarioLateNext(rng)
+		scenarioOptions()
 	}
 	if only == "d8" {
 		scenarioD8(rng)
